@@ -4,6 +4,8 @@ from lib import vf
 from lib import codecdef as cd
 from lib import codecgen as cg
 from gen import trxd_proto
+from lib import trxd as T
+from props import msg_reuse_part as reuse
 
 ID = "C17"
 LEVEL = "proof"
@@ -432,6 +434,14 @@ def search(run, corr, deep):
         found += run.report_witness(w)
         if found >= 20:
             break
+    # the datagrams of the message codec (data_msg.py, an anchor of this property) are those of the message as it is NOW,
+    # also when the message object was encoded before and changed since
+    pool = [("tx", T.rand_valid_tx(run.rng), run.rng.randrange(2)) for _ in range(200)] + \
+           [("rx", T.rand_valid_rx(run.rng), run.rng.randrange(2)) for _ in range(200)]
+    pool = [x for x in pool if not (x[0] == "rx" and x[1].burst is not None and 0x80 in bytes(x[1].burst))]
+    rf = reuse.run(run, corr, pool, True, "C17")
+    if rf:
+        found += run.report_witness(reuse.witness(rf[0], len(rf)))
     return found
 
 
@@ -491,6 +501,11 @@ def replay(run, path):
             print("replay: no concrete input recorded (%s)" % json.dumps(v.get("broken"))[:400])
             continue
         kind = w["kind"]
+        if kind == "message-object-reused":
+            still, text = reuse.replay(w)
+            print(text)
+            bad += still
+            continue
         if kind == "history-dependent":
             out = impl(w["history"])[-1]
             ref = impl([fresh(w["history"][-1])])[0]
